@@ -18,15 +18,20 @@ a == Num("a")   b == Num("b")   A == Cat("A")   B == Cat("B")
 CS == CC("C(A, contr.sum)", "A", "sum")
 CH == CC("C(B, contr.helmert)", "B", "helmert")
 CX == CC("C(B, contr.SAS)", "B", "sas")
+QN == [e |-> "n 1", kind |-> "num", col |-> "n 1", contr |-> "", lit |-> 1]               \* written `n 1`
+PYQ == [e |-> "I(`n 1`)", kind |-> "num", col |-> "n 1", contr |-> "", lit |-> 1]         \* a quoted name inside a python factor
 Icpt == <<Lit(1)>>
 
 TermPool == << <<a>>, <<b>>, <<A>>, <<B>>, <<a, b>>, <<A, a>>, <<a, A>>, <<A, B>>, <<B, A>>, <<A, B, a>>,
-               <<Lit(2), a>>, <<Lit(2), A>>, <<Lit(3), A, B>>, <<CS>>, <<CS, a>>, <<CH>>, <<CH, A>>, <<CX>>, <<b, CX>> >>
+               <<Lit(2), a>>, <<Lit(2), A>>, <<Lit(3), A, B>>, <<CS>>, <<CS, a>>, <<CH>>, <<CH, A>>, <<CX>>, <<b, CX>>, <<QN>>, <<PYQ, A>> >>
 
 (* frames *)
 NumCol(v, nulls) == [kind |-> "num", num |-> v, cat |-> <<>>, nulls |-> nulls, lv |-> <<>>, declared |-> FALSE]
 CatCol(v, nulls, lv, decl) == [kind |-> "cat", num |-> <<>>, cat |-> v, nulls |-> nulls, lv |-> lv, declared |-> decl]
-Fr(n, ca, cb, cA, cB) == [n |-> n, cols |-> [c \in {"a", "b", "A", "B"} |-> CASE c = "a" -> ca [] c = "b" -> cb [] c = "A" -> cA [] c = "B" -> cB]]
+\* "n 1" is a numeric column whose name is not an identifier (it must be quoted in a formula): the values of b plus 10, never null
+Fr(n, ca, cb, cA, cB) == [n |-> n, cols |-> [c \in {"a", "b", "A", "B", "n 1"} |->
+                            CASE c = "a" -> ca [] c = "b" -> cb [] c = "A" -> cA [] c = "B" -> cB
+                              [] OTHER -> NumCol([i \in DOMAIN cb.num |-> cb.num[i] + 10], {})]]
 XYZ == <<"x", "y", "z">>   PQ == <<"p", "q">>
 Frames == <<
   Fr(4, NumCol(<<2, 3, -1, 5>>, {}), NumCol(<<1, 0, 4, 2>>, {}), CatCol(<<"x", "y", "x", "z">>, {}, XYZ, FALSE), CatCol(<<"p", "q", "q", "p">>, {}, PQ, FALSE)),
